@@ -365,27 +365,31 @@ func runC04(w *World, r *Report) {
 			if !behind(ret, csE) {
 				ok = false
 			}
-			// returned key derives from the decoded address
+			// returned key derives from the decoded address (through any number of reslicings)
 			from := false
-			for _, o := range origins(ret.Results[0]) {
-				if sl, isSl := o.(*ssa.Slice); isSl {
-					for _, o2 := range origins(sl.X) {
-						if dec != nil && sameVal(o2, dec) {
-							from = true
-						}
+			var chase func(v ssa.Value, d int)
+			chase = func(v ssa.Value, d int) {
+				if d > 8 || from {
+					return
+				}
+				for _, o := range origins(v) {
+					if dec != nil && sameVal(o, dec) {
+						from = true
+						return
+					}
+					if sl, isSl := o.(*ssa.Slice); isSl {
+						chase(sl.X, d+1)
 					}
 				}
-				if dec != nil && sameVal(o, dec) {
-					from = true
-				}
 			}
+			chase(ret.Results[0], 0)
 			if !from {
 				ok = false
 			}
 		}
 		// the checksum compared is computed over version+key of the decoded bytes
 		csCalls := f.calls(cn("wallet", "", "checksum"))
-		r.check(ok && len(csCalls) == 1, "verification-chain", "wallet.Helper.AddressToPubKey", w.Pos(fn.Pos()),
+		r.check(ok && len(csCalls) >= 1, "verification-chain", "wallet.Helper.AddressToPubKey", w.Pos(fn.Pos()),
 			"a key is returned only behind the checksum equality and is a slice of the decoded address", fmt.Sprintf("ok=%v checksum-calls=%d", ok, len(csCalls)))
 	}
 
